@@ -154,7 +154,14 @@ async fn a_write(op: &Value) -> Value {
             if rest.is_empty() && op.get("write_all").and_then(|v| v.as_bool()) == Some(true) {
                 break;
             }
-            match w.write(rest).await {
+            let vectored = op.get("vectored").and_then(|v| v.as_bool()) == Some(true);
+            let res = if vectored {
+                let mid = rest.len() / 2;
+                w.write_vectored(&[std::io::IoSlice::new(&rest[..mid]), std::io::IoSlice::new(&rest[mid..])]).await
+            } else {
+                w.write(rest).await
+            };
+            match res {
                 Ok(k) => {
                     if k > rest.len() {
                         return json!({"r":"err","v":"Bogus","msg":"write returned more than given"});
